@@ -430,6 +430,26 @@ def local_to_arr(L, st=None):
             else: b = val
             body = b if body is None else mk_pv(_cond_eq(X.var(rv), X.const(k), f"{rv}=={k}"), b, body)
         return Arr([(rv, L.shape[0]), (cv, Cn)], body)
+    if len(L.shape) == 1 and len(L.stores) > 1 and all(r[0] != "opaque" and len(r) == 3 and len(r[0]) == 1 and len(r[1]) == 1 for r in L.stores):
+        # several block stores  a[lo_k : lo_k + n_k] = v_k(t)  with concrete offsets: element i takes the value of the last block containing it
+        ok = True; blocks = []
+        for binders, sidx, val in L.stores:
+            (tv, cnt), = binders
+            lo = sidx[0] - X.var(tv)
+            if lo.as_int() is None or (cnt.as_int() is None): ok = False; break
+            blocks.append((lo.as_int(), cnt.as_int(), tv, val))
+        if ok:
+            from .libmodel import scal_compare
+            import ast as _ast
+            iv = fresh("i")
+            body = L.fill if L.fill is not None else Opaque(f"element of {L.name} never stored")
+            for lo, cnt, tv, val in blocks:
+                inside = subst_val(val, {tv: X.var(iv) - lo})
+                c_lo = scal_compare(_ast.Lt(), X.var(iv), X.const(lo), f"{iv}<{lo}")
+                c_hi = scal_compare(_ast.Lt(), X.var(iv), X.const(lo + cnt), f"{iv}<{lo + cnt}")
+                prev = body
+                body = pv_apply(lambda a_, b_, prev=prev, inside=inside: prev if a_ is True else (inside if b_ is True else prev), c_lo, c_hi)
+            return Arr([(iv, L.shape[0])], body)
     rec = L.stores[-1]
     if rec[0] == "opaque": return None
     binders, sidx, val = rec[0], rec[1], rec[2]
